@@ -28,9 +28,17 @@
    the work function of the innermost); [exec_op fl w s o p reqs sc] is the case
    [encl = []].  [WFbuts encl s]: well-formed once the enclosing operations - each
    possibly delisted and still holding locks - are counted as live
-   ([WFbuts [] s <-> WF s], Proofs.wfbuts_nil). *)
+   ([WFbuts [] s <-> WF s], Proofs.wfbuts_nil).
+   The step API, hence every scripted work function (also a nested one) and every
+   history, contains [FRegister r pre] = system.register_resource(r, allow_preemption):
+   a new id, or an id that is registered already (RE-REGISTRATION: the lock object is
+   replaced by a new, free one while operations may still hold - and will release -
+   the old one, Model.reregister), so every theorem below that quantifies over
+   scripts, states satisfying [WF] or histories covers registration on a live system.
+   [request_of k items] is the request list when `resources` is given as another
+   iterable than a list (generator, iterator, tuple, dict keys, set, ...). *)
 From Coq Require Import ZArith List Bool.
-From Verif Require Import C14.Model C14.Proofs.
+From Verif Require Import C14.Model C14.Proofs C14.ProofsReg.
 Import ListNotations.
 Open Scope Z_scope.
 
@@ -305,3 +313,56 @@ Theorem c14_signatures_irrelevant :
     exec_in chk fl w sc encl s o p reqs = exec_in chk fl w sc' encl s o p reqs.
 Proof. exact signatures_irrelevant_proof. Qed.
 Print Assumptions c14_signatures_irrelevant.
+
+(* ------------------------------------------------------------------ *)
+(* register_resource on a live system                                   *)
+
+(* registering a resource - a new id or one that is registered already, free or held by
+   anybody, re-entrantly or not - keeps the invariant: every owner of a lock (registered or
+   replaced) stays an active operation whose context refers to exactly that lock *)
+Theorem c14_registration_keeps_invariant :
+  forall s r pre, WF s -> WF (reregister s r pre).
+Proof. exact reregister_wf. Qed.
+Print Assumptions c14_registration_keeps_invariant.
+
+(* after a resource was registered (again), in any well-formed state and whoever held it, an
+   operation that ends - manual kill, abort, complete - owns nothing: no registered lock and
+   no replaced one ([owner] ranges over both), and is not active; the lock now registered
+   under the id is free (so nobody, in particular no ended operation, owns it) *)
+Theorem c14_end_after_registration_no_leak :
+  forall w s r pre a o,
+    WF s -> a = FKill o \/ a = FAbort o \/ a = FComplete o ->
+    let s1 := fst (fstep current w s (FRegister r pre)) in
+    let s' := fst (fstep current w s1 a) in
+    WF s' /\ (forall x, owner s' x <> Some o) /\ ~ In o (active s') /\
+    (registered r = true -> owner s1 r = None).
+Proof. exact end_after_registration_proof. Qed.
+Print Assumptions c14_end_after_registration_no_leak.
+
+Theorem c14_shutdown_after_registration_no_leak :
+  forall s r pre, WF s -> forall x, owner (shutdown current (reregister s r pre)) x = None.
+Proof. exact shutdown_after_registration_proof. Qed.
+Print Assumptions c14_shutdown_after_registration_no_leak.
+
+(* ------------------------------------------------------------------ *)
+(* `resources` as any iterable                                          *)
+
+(* whatever kind of iterable the request is - list, tuple, generator, iterator, map object,
+   one-shot or re-iterable object, dict keys, dict, set - the work function runs at most once
+   and only in a state in which the (active) operation owns EVERY id the caller put into it
+   (an empty container requests nothing) *)
+Theorem c14_work_holds_all_yielded :
+  forall fl w encl s o p k items sc,
+    let res := snd (exec_in true fl w sc encl s o p (request_of k items)) in
+    (length (filter is_work (r_log res)) <= 1)%nat /\
+    (forall sw, In (EvWork sw) (r_log res) ->
+       In o (active sw) /\ forall r, In r items -> owner sw r = Some o).
+Proof. exact work_holds_all_yielded_proof. Qed.
+Print Assumptions c14_work_holds_all_yielded.
+
+(* the request is exactly what the caller put in; a second pass over a one-shot iterable
+   would see nothing (execute_operation makes one pass) *)
+Theorem c14_request_is_what_was_put_in :
+  forall k items x, In x (request_of k items) <-> In x items.
+Proof. exact request_of_In. Qed.
+Print Assumptions c14_request_is_what_was_put_in.
